@@ -68,7 +68,7 @@ static const char * ctl_ptname(int pt) {
     N(ONCE_WAIT_READ) N(JOIN_LOCKED) N(JOIN_CB_SET) N(JOIN_SPIN) N(JOIN_REAP) N(FIN_BEGIN) N(FIN_LOCKED)
     N(FIN_STACK_FREE) N(FIN_PUBLISH) N(DETACH_FAST) N(DETACH_LOCKED) N(TRYJOIN_LOCKED) N(CREATE_BEGIN)
     N(CREATE_1) N(CREATE_PUSHED) N(DESC_GET) N(DESC_FREE) N(STACK_GET) N(STACK_FREE) N(YIELD_CB)
-    N(CTX_CALLBACK) N(FE_WAL_BEGIN) N(FE_WAL_CHECK) N(FE_MARK) N(TLS_NODE_ALLOC) N(TLS_NODE_FREE) N(TLS_KEY_CAS_ALLOC) N(TLS_KEY_CAS_DEALLOC)
+    N(SQ_ENQ) N(SQ_DEQ) N(STK_PUSH_READ) N(STK_PUSH_CAS) N(STK_POP_READ) N(STK_POP_CAS) N(CTX_CALLBACK) N(FE_WAL_BEGIN) N(FE_WAL_CHECK) N(FE_MARK) N(TLS_NODE_ALLOC) N(TLS_NODE_FREE) N(TLS_KEY_CAS_ALLOC) N(TLS_KEY_CAS_DEALLOC)
 #undef N
   default: return "PT?";
   }
